@@ -36,7 +36,7 @@ def splitList (s : String) : List String := if s.isEmpty then [] else s.splitOn 
 
 def parseSpecLine (p : List String) : Option (FnSpec × Option Float) :=
   match p with
-  | [_, _idx, name, asy, thr, cfgS, useMem, isRes, ci, io, tags, events, deps, _ident, _attrs] => do
+  | _ :: _idx :: name :: asy :: thr :: cfgS :: useMem :: isRes :: ci :: io :: tags :: events :: deps :: _ident :: _attrs :: _ => do
     let (cfg, fw) ← parseCfg cfgS
     pure (⟨name, asy = "1", thr = "1", cfg, useMem = "1", isRes = "1", ci = "1", io = "1",
            splitList tags, splitList events, splitList deps⟩, fw)
